@@ -195,6 +195,16 @@ def scaled_condition(nodes, A, Iy, Iz, J, E, G, root):
     return float(np.linalg.cond(Kff * s[:, None] * s[None, :]))
 
 
+def unscaled_condition(nodes, A, Iy, Iz, J, E, G, root):
+    """2-norm condition number of the free-free stiffness matrix as it stands (no scaling): what an elimination without
+    equilibration (scipy's LU of the assembled matrix, as the code under test uses) has to live with when the bending
+    stiffness EI/L is ten decades below the axial stiffness EA/L"""
+    nodes = np.asarray(nodes, float)
+    K = assemble(nodes, A, Iy, Iz, J, E, G)
+    free = free_dofs(nodes.shape[0], root)
+    return float(np.linalg.cond(K[np.ix_(free, free)]))
+
+
 # ----------------------------------------------------------------------------------------------------------------
 # force (flexibility) method
 
